@@ -76,6 +76,10 @@ func (g *c12Gen) node(d int) *snode {
 	case 0, 1:
 		return &snode{kind: "probe", name: name}
 	case 2:
+		if g.rg.chance(1, 4) {
+			// bound to nothing is bound all the same
+			return &snode{kind: "setnil", name: name, val: g.rg.pick([]string{"nothing_defined", "nil", "nothing.at.all"})}
+		}
 		return &snode{kind: "set", name: name, val: g.lit()}
 	case 3, 4:
 		return &snode{kind: "with", name: name, val: g.lit(), kids: g.body(d - 1)}
@@ -95,6 +99,14 @@ func (g *c12Gen) node(d int) *snode {
 			}
 			g.noparam[mname] = true
 			return &snode{kind: "macrodef", name: mname, val: "", kids: body}
+		}
+		if g.rg.chance(1, 3) {
+			// a second parameter whose default is a NAME - maybe the first parameter's name: the
+			// default means what the name means where the macro is defined, not the argument
+			q := g.rg.pick(c12Names)
+			if q != name {
+				return &snode{kind: "macrodef", name: mname, val: name, file: q + "=" + g.rg.pick(c12Names), kids: body}
+			}
 		}
 		return &snode{kind: "macrodef", name: mname, val: name, kids: body}
 	case 8:
@@ -127,6 +139,8 @@ func c12Print(ns []*snode) string {
 			sb.WriteString("[{{ " + n.name + " }}]")
 		case "set":
 			sb.WriteString("{% set " + n.name + " = \"" + n.val + "\" %}")
+		case "setnil":
+			sb.WriteString("{% set " + n.name + " = " + n.val + " %}")
 		case "with":
 			sb.WriteString("{% with " + n.name + "=\"" + n.val + "\" %}" + c12Print(n.kids) + "{% endwith %}")
 		case "for":
@@ -140,7 +154,11 @@ func c12Print(ns []*snode) string {
 		case "sortloop":
 			sb.WriteString("{% for zq in tnums sorted %}{% endfor %}{% for zq in gnums reversed sorted %}{% endfor %}{% for zq in tstrs sorted %}{% endfor %}{% for zq in tstrs reversed %}{% endfor %}")
 		case "macrodef":
-			sb.WriteString("{% macro " + n.name + "(" + n.val + ") %}" + c12Print(n.kids) + "{% endmacro %}")
+			params := n.val
+			if n.file != "" {
+				params += ", " + n.file
+			}
+			sb.WriteString("{% macro " + n.name + "(" + params + ") %}" + c12Print(n.kids) + "{% endmacro %}")
 		case "call":
 			sb.WriteString("{{ " + n.name + "(\"" + n.val + "\") }}")
 		case "call0":
@@ -164,6 +182,7 @@ func c12Print(ns []*snode) string {
 // public context below them; macros close over the scope they were defined in
 type c12Scope map[string]string
 type c12Macro struct {
+	q, d  string // second parameter and the name its default refers to
 	param string
 	body  []*snode
 	scope c12Scope
@@ -212,6 +231,8 @@ func c12Run(ns []*snode, e *c12Env, refs map[*c12Macro]*c12MacroRef, out *string
 			out.WriteString("[" + e.lookup(n.name) + "]")
 		case "set":
 			e.top()[n.name] = n.val
+		case "setnil":
+			e.top()[n.name] = ""
 		case "with":
 			e.push(e.top(), e.mscope[len(e.mscope)-1])
 			e.top()[n.name] = n.val
@@ -240,6 +261,10 @@ func c12Run(ns []*snode, e *c12Env, refs map[*c12Macro]*c12MacroRef, out *string
 		case "sortloop":
 		case "macrodef":
 			m := &c12Macro{param: n.val, body: n.kids}
+			if n.file != "" {
+				qd := strings.SplitN(n.file, "=", 2)
+				m.q, m.d = qd[0], qd[1]
+			}
 			refs[m] = &c12MacroRef{m: m, scope: e.top(), mscope: e.mscope[len(e.mscope)-1]}
 			e.mscope[len(e.mscope)-1][n.name] = m
 		case "call", "call0":
@@ -250,6 +275,10 @@ func c12Run(ns []*snode, e *c12Env, refs map[*c12Macro]*c12MacroRef, out *string
 			}
 			ref := refs[m]
 			e.push(ref.scope, ref.mscope)
+			if m.q != "" {
+				// the default: what the name means in the defining scope, before any parameter is bound
+				e.top()[m.q] = e.lookup(m.d)
+			}
 			if m.param != "" {
 				e.top()[m.param] = n.val // "" for an omitted argument: bound, and empty
 			}
